@@ -69,6 +69,32 @@ def gen_cases(tier, seed):
         if r.random() < 0.5:
             sched = [t for t in sched for _ in range(r.choice([1, 1, 2, 3]))]
         add(mode, progs, sched + drain_suffix(len(progs), 8 * max(len(p) for p in progs) + 8), "random-%s" % mode)
+    # the outbound data path of proxied streams: Stream::send_data -> channel -> forwarding task -> write_data_frame.
+    # every interleaving of the first steps of one sender and the forwarding task
+    progs = [[], prog_open_send(1, 2), pump_prog(40)]
+    for bits in itertools.product([1, 2], repeat=11 if tier == "quick" else 15):
+        add("plain", progs, list(bits) + drain_suffix(3, 30), "exhaustive-sender-pump")
+    # two senders, random schedules, the forwarding task anywhere
+    for i in range(300 if tier == "quick" else 8000):
+        nt = r.choice([1, 2, 2, 3])
+        progs = [[]]
+        for t in range(1, nt + 1):
+            if r.random() < 0.8:
+                progs.append(prog_open_send(t, r.randint(1, 4), disable_buf=(r.random() < 0.9)))
+            else:
+                progs.append(prog_open_write(t, r.randint(1, 2)))
+        progs.append(pump_prog(200))
+        if r.random() < 0.2:
+            progs.append(["F:fin:%d" % r.randint(1, nt), "F:psh:%d" % r.randint(1, nt)])
+        L = r.randint(10, 70)
+        sched = [r.randint(1, len(progs) - 1) for _ in range(L)]
+        if r.random() < 0.5:
+            sched = [t for t in sched for _ in range(r.choice([1, 1, 2, 3]))]
+        nsend = sum(1 for p in progs for x in p if x.startswith("S:"))
+        pump_t = [i for i, p in enumerate(progs) if is_pump_prog(p)][0]
+        # drain: everybody finishes, then the forwarding task gets enough steps to empty the channel (7 per chunk)
+        rounds = 8 * max(len(p) for p in progs if not is_pump_prog(p)) + 10
+        add("plain", progs, sched + drain_suffix(len(progs), rounds) + [pump_t] * (8 * nsend + 4), "random-pump")
     # multi-threaded start-up stress (heartbeat enabled): no model side, oracle only
     for i in range(4 if tier == "quick" else 16):
         cs.append(Case("mt%d" % i, "mtstart", [150 if tier == "quick" else 1000], "mt-startup-stress", True, model=False))
@@ -90,8 +116,14 @@ def oracle(c, ir):
         return "a burst on the transport does not parse as whole frames: %s" % ir[:300]
     mode = c.args[0]
     # every task finished (no faults, no close in these programs)
+    progs0 = [p.split() for p in " ".join(c.args).split(" sched ")[0].split("|")[1:]]
     for t, (pc, res) in o["tasks"].items():
         if t == 0:
+            continue
+        if t < len(progs0) and is_pump_prog([x for x in progs0[t] if x != "-"]):
+            # the forwarding task never finishes on a live session: it is at the top of its loop or waiting for data
+            if pc not in ("pump.loop", "pump.wait", "h.call"):
+                return "the forwarding task is stuck at %s although every sender has finished and the drain granted it steps" % pc
             continue
         if pc != "done":
             return "task %d did not finish (stuck at %s) although nothing closes or fails in this program" % (t, pc)
@@ -129,7 +161,7 @@ def oracle(c, ir):
         for tok in p.split():
             if tok == "O":
                 submitted += 1
-            elif tok.startswith("D:") or tok.startswith("W:"):
+            elif tok.startswith("D:") or tok.startswith("W:") or tok.startswith("S:"):
                 submitted += 1
             elif tok == "B0":
                 disabled = True
@@ -138,6 +170,19 @@ def oracle(c, ir):
         on_wire = len(data)
         if on_wire > submitted:
             return "more frames on the wire (%d) than submitted (%d)" % (on_wire, submitted)
+    # the forwarding path drops nothing: the drain grants the forwarding task enough steps to empty the channel
+    has_pump = any(is_pump_prog([x for x in p if x != "-"]) for p in progs0)
+    if has_pump and o["tasks"].get(len(progs0) - 1, ("", []))[0] != "h.call" or has_pump and any(
+            is_pump_prog([x for x in p if x != "-"]) and o["tasks"].get(i, ("", []))[0] in ("pump.wait",) for i, p in enumerate(progs0)):
+        for t, p in enumerate(progs0):
+            toks = [x for x in p if x != "-"]
+            if "B0" in toks and any(x.startswith("S:") for x in toks):
+                pumpst = [o["tasks"].get(i, ("", []))[0] for i, q in enumerate(progs0) if is_pump_prog([x for x in q if x != "-"])]
+                if pumpst and pumpst[0] == "pump.wait":
+                    want = [x[2:] for x in toks if x.startswith("S:")]
+                    got = [f.split(".")[2] for f in data if f.split(".")[0] == "2" and f.split(".")[2][:2] == "%02x" % t]
+                    if got != want:
+                        return "stream of task %d: the application sent %s, the wire carries %s (forwarding task idle, channel must be empty)" % (t, want, got)
     # packet numbering follows transport order (C05 ordering clause)
     idx = [i for i, _ in o["bursts"]]
     if idx != list(range(1, len(idx) + 1)):
